@@ -359,7 +359,14 @@ func (fr *Frame) visit(instr ssa.Instruction) cont {
 	case *ssa.RunDefers:
 		fr.runDefers()
 	case *ssa.Panic:
-		panic(targetPanic{fr.get(in.X)})
+		pv := fr.get(in.X)
+		if iv, ok := pv.(Iface); ok && iv.T == nil {
+			// Go >= 1.21: panic(nil) is a *runtime.PanicNilError
+			cell := new(Value)
+			*cell = zero(g.run.P.NamedType("runtime", "PanicNilError"))
+			pv = Iface{T: types.NewPointer(g.run.P.NamedType("runtime", "PanicNilError")), V: cell}
+		}
+		panic(targetPanic{pv})
 	case *ssa.Send:
 		g.chanSend(fr.get(in.Chan).(*Chan), copyVal(fr.get(in.X)))
 	case *ssa.Store:
